@@ -576,10 +576,17 @@ def _discharge(o: Obligation, second=False, want_model=True):
     """portfolio: z3 5.1 API (short) -> z3 4.8.12 CLI -> cvc5 CLI -> z3 5.1 API (long).
     -> dict(status=unsat|sat|unknown, backend, time_s, model)"""
     t0 = time.time()
-    # step 0: without the quantified assumptions (sound for `unsat`: fewer assumptions).  Goals are skolemised and the quantified
+    s, r = _z3api(o, Z3_FAST_MS)
+    rec = {'status': str(r), 'backend': 'z3-' + z3.get_version_string(), 'time_s': round(time.time() - t0, 4), 'model': None}
+    if r == z3.sat:
+        rec['model'] = s.model()
+        return rec
+    if r == z3.unsat and not second:
+        return rec
+    # second attempt (the fast one came back `unknown`): without the quantified assumptions (sound for `unsat`: fewer assumptions).  Goals are skolemised and the quantified
     # invariants / lemma instances are already instantiated at the skolem constants and at the matching ground terms, so the
     # quantifier-free part usually suffices — and the solvers decide it in milliseconds where the full VC takes cvc5 many seconds
-    if not second and any(z3.is_quantifier(a) or _has_quant(a) for a in o.pc):
+    if r == z3.unknown and not second and any(z3.is_quantifier(a) or _has_quant(a) for a in o.pc):
         s0 = z3.Solver()
         s0.set('timeout', 4 * Z3_FAST_MS)
         cache_ = {}
@@ -593,13 +600,6 @@ def _discharge(o: Obligation, second=False, want_model=True):
             r0 = z3.unknown
         if r0 == z3.unsat:
             return {'status': 'unsat', 'backend': 'z3-' + z3.get_version_string() + ' (quantifier-free part of the assumptions)', 'time_s': round(time.time() - t0, 4), 'model': None}
-    s, r = _z3api(o, Z3_FAST_MS)
-    rec = {'status': str(r), 'backend': 'z3-' + z3.get_version_string(), 'time_s': round(time.time() - t0, 4), 'model': None}
-    if r == z3.sat:
-        rec['model'] = s.model()
-        return rec
-    if r == z3.unsat and not second:
-        return rec
     text = '(set-logic ALL)\n' + to_smt2(s)
     if second and r == z3.unsat:
         t1 = time.time()
